@@ -153,7 +153,18 @@ class Ctx:
         replay_paths = []
         if self.violations:
             os.makedirs(REPLAYS, exist_ok=True)
-            for v in self.violations[:20]:
+            # keep replay files for up to 3 violations of every group (max 60 files)
+            per_group = {}
+            ordered = []
+            for v in self.violations:
+                key = json.dumps({k: v.get(k) for k in ("stage", "kind", "app_kind", "tool", "op", "c", "bad", "what")
+                                  if k in v}, default=_default)
+                per_group[key] = per_group.get(key, 0) + 1
+                if per_group[key] <= 3 and len(ordered) < 60:
+                    ordered.append(v)
+            rest = [v for v in self.violations if not any(v is o for o in ordered)]
+            self.violations = ordered + rest
+            for v in ordered:
                 blob = json.dumps(v, sort_keys=True, default=_default)
                 h = hashlib.sha256(blob.encode()).hexdigest()[:12]
                 path = os.path.join(REPLAYS, f"{self.prop}-{h}.json")
